@@ -37,6 +37,9 @@ def main():
         if prop in ("C08", "C09", "C10", "C12"):
             import check_life
             return check_life.check(prop, tier, seed, replay)
+        if prop in ("C05", "C18"):
+            import check_prog
+            return check_prog.check_routing(prop, tier, seed, replay)
         print("no check for", prop)
         return 2
     except vlib.Infra as e:
